@@ -451,6 +451,25 @@ def check(run, prog):
                     sib_ok = False
             run.ob("R-12.2", key, sib_ok,
                    "a line splice is recognised in one spelling only (backslash-newline vs ??/-newline) on raw characters", n)
+    # splice recognisers written as regular expressions (module-level patterns of the lexer): both spellings or none
+    import re as _re
+    from ..fold import RegexConst, try_fold
+    lexmod = prog.cls("Lexer").mod
+    for name, vals in sorted(lexmod.assigns.items()):
+        for v in vals:
+            rc = try_fold(v, lexmod) if isinstance(v, ast.expr) else None
+            if not isinstance(rc, RegexConst):
+                continue
+            try:
+                rx = _re.compile(rc.pattern, rc.flags)
+            except _re.error:
+                continue
+            plain, tri = bool(rx.search("\\\n")), bool(rx.search("??/\n"))
+            if plain or tri:
+                n_splice += 1
+                run.ob("R-12.2", f"{lexmod.rel}::splice-pattern[{name}]", plain and tri,
+                       f"the pattern {name} recognises a line splice in one spelling only (backslash-newline: {plain}, "
+                       f"??/-newline: {tri})", v)
     run.require(n_splice >= 2, f"only {n_splice} splice tests found (floor 2)")
 
     # ---- R-12.3 --------------------------------------------------------------------------------
